@@ -94,11 +94,9 @@ class Exec:
         self.last_clock = None
         self.oracles = []
         self.loop_ordinals = {}
-        k = 0
-        for n in ast.walk(self.fdef):
-            if isinstance(n, (ast.For, ast.While)):
-                self.loop_ordinals[id(n)] = k
-                k += 1
+        loops_ = [n for n in ast.walk(self.fdef) if isinstance(n, (ast.For, ast.While))]
+        for k, n in enumerate(sorted(loops_, key=lambda n: (n.lineno, n.col_offset))):
+            self.loop_ordinals[id(n)] = k     # source order
 
     # ------------------------------------------------------------------ paths
     def explore(self, max_paths=2000):
@@ -913,7 +911,9 @@ class Exec:
             r = v.py
             if r.step != 1:
                 raise Unsupported("range step")
-            return VList(IntVal(max(0, r.stop - r.start)), lambda i: VZ(IntVal(r.start) + i, "int"))
+            lst = VList(IntVal(max(0, r.stop - r.start)), lambda i: VZ(IntVal(r.start) + i, "int"))
+            lst.range_bounds = (IntVal(r.start), IntVal(r.stop))
+            return lst
         raise Unsupported("iteration over %r at %d" % (v, getattr(node, "lineno", 0)))
 
     # calls --------------------------------------------------------------------
